@@ -22,6 +22,61 @@ let re_answer p t n =
     if sign_of_z r < 0 then "-1 EINVAL untouched" else
     String.concat " " (string_of_z r :: List.map (fun c -> match c with
       | CNull -> "-1" | COff o -> string_of_z o | CStale -> "S") slots)
+let rec cstr0 = function [] -> [] | c :: r -> if c = Z0 then [] else c :: cstr0 r
+(* does iwstrtod on the number text at offset i end with errno == ERANGE (a non finite double)?  A floating point verdict
+   that the index-level model takes as a parameter; here a sound approximation from the decimal magnitude:
+   Some false / Some true when certain, None = too close to the limits of the double range to tell without doing the
+   arithmetic (the query is then answered `?` and not compared). *)
+let jsk_unsure = ref false
+let strtod_range (txt : int array) (i : int) : bool option =
+  let n = Array.length txt in
+  let at k = if k >= 0 && k < n then txt.(k) else 0 in
+  let isd c = c >= 48 && c <= 57 in
+  let p = ref i in
+  while at !p = 32 || (at !p >= 9 && at !p <= 13) do incr p done;
+  if at !p = 45 || at !p = 43 then incr p;
+  (* mantissa: lead = decimal exponent of the first non zero digit *)
+  let ip = !p in
+  while isd (at !p) do incr p done;
+  let ni = !p - ip in
+  let lead = ref None in
+  for k = 0 to ni - 1 do if !lead = None && at (ip + k) <> 48 then lead := Some (ni - 1 - k) done;
+  if at !p = 46 then begin
+    incr p;
+    let fp = !p in
+    while isd (at !p) do incr p done;
+    for k = 0 to !p - fp - 1 do if !lead = None && at (fp + k) <> 48 then lead := Some (- (k + 1)) done
+  end;
+  let e = ref 0 in
+  if at !p = 69 || at !p = 101 then begin
+    incr p;
+    let neg = at !p = 45 in
+    if at !p = 45 || at !p = 43 then incr p;
+    while isd (at !p) do (if !e < 100000 then e := !e * 10 + (at !p - 48)); incr p done;
+    if neg then e := - !e
+  end;
+  match !lead with
+  | None -> Some false                                   (* all digits zero: the value is 0 *)
+  | Some l ->
+    let t = l + !e in
+    if !e = -308 then None
+    else if l <= 300 && t <= 300 then Some false
+    else if l >= 310 || (t >= 310 && l >= -290) then Some true
+    else None
+let jsk_answer js h =
+  let b = cstr0 (bytes_of_hex h) @ [Z0] in
+  let txt = Array.of_list (List.map int_of_z b) in
+  jsk_unsure := false;
+  let rng i = match strtod_range txt (int_of_z i) with Some v -> v | None -> jsk_unsure := true; false in
+  let r = jparse js rng b in
+  if !jsk_unsure then "?" else
+  match r with
+  | Oob i -> "OOB " ^ string_of_z i
+  | Fuel -> "FUEL"
+  | Ok (o, st) ->
+    (match o with
+     | JErr EJson -> "Ejson" | JErr ENest -> "Enest" | JErr ECp -> "Ecp" | JErr EUnq -> "Eunq"
+     | JAt i -> string_of_z i) ^ " " ^ string_of_z st.j_nodes ^ " " ^ string_of_z st.j_deep
 let rec handle l =
   match List.rev l with
   | e :: r when String.length e > 1 && e.[0] = '@' ->      (* trailing @<errno>: the ambient errno the call starts with *)
@@ -109,11 +164,42 @@ and handle1 = function
            | Some b ->
              let rec slen k = function [] -> k | c :: r -> if c = Z0 then k else slen (k + 1) r in
              Printf.sprintf "%s%d %d %s" (Buffer.contents pre) n (slen 0 b) (hex_of_bytes b))))
+  | ["ini"; h] ->
+    (match ini_query (cstr0 (bytes_of_hex h)) with
+     | Oob i -> "OOB " ^ string_of_z i
+     | Fuel -> "FUEL"
+     | Ok (rc, evs) ->
+       let os = function None -> "~" | Some s -> hex_of_bytes s in
+       "ini" ^ String.concat "" (List.map (fun (Ev (s, n, v)) -> " [" ^ hex_of_bytes s ^ "|" ^ os n ^ "|" ^ os v ^ "]") evs)
+       ^ " rc=" ^ string_of_z rc)
+  | ["jsk"; h] -> jsk_answer false h
+  | ["jssk"; h] -> jsk_answer true h
+  | ["sde"; h] ->
+    (match sde_query (term (cstr0 (bytes_of_hex h))) with
+     | Oob i -> "OOB " ^ string_of_z i | Fuel -> "FUEL" | Ok e -> string_of_z e)
+  | ["wstrtoll"; h] ->
+    (match iw_strtoll_current !errno_in (term (cstr0 (bytes_of_hex h))) with
+     | Oob i -> "OOB " ^ string_of_z i | Fuel -> "FUEL" | Ok WErr -> "E" | Ok (WVal v) -> string_of_z v)
+  | ["uuid"; h] ->
+    (match uuid_valid (term (cstr0 (bytes_of_hex h))) with
+     | Oob i -> "OOB " ^ string_of_z i | Fuel -> "FUEL" | Ok true -> "1" | Ok false -> "0")
+  | ["split"; h; c; ws] ->
+    (match split (term (cstr0 (bytes_of_hex h))) (term (cstr0 (bytes_of_hex c))) (ws <> "0") with
+     | Oob i -> "OOB " ^ string_of_z i | Fuel -> "FUEL"
+     | Ok [] -> "none"
+     | Ok l -> String.concat " " (List.map hex_of_bytes l))
+  | "csv" :: len :: cols ->
+    (match csv_query (z_of_string len) (List.map bytes_of_hex cols) with
+     | Oob i -> "OOB " ^ string_of_z i | Fuel -> "FUEL"
+     | Ok None -> "inv"
+     | Ok (Some (oks, line)) ->
+       String.concat "" (List.map (fun b -> if b then "1 " else "0 ") oks) ^
+       (match line with None -> "null" | Some l -> hex_of_bytes l))
   | ["rem"; p; t; n] -> re_answer p t (int_of_string n)
   | ["re"; p; t] -> re_answer p t 16
   | ["facts"] ->
-    Printf.sprintf "ptr_tilde_strict=%b hex2bin_checks_max=%b atoi2_inf_bounded=%b num_clears_errno=%b num_big_as_double=%b"
-      fact_ptr_tilde_strict fact_hex2bin_checks_max fact_atoi2_inf_bounded fact_num_clears_errno fact_num_big_as_double
+    Printf.sprintf "ptr_tilde_strict=%b hex2bin_checks_max=%b atoi2_inf_bounded=%b num_clears_errno=%b num_big_as_double=%b strto_clears_errno=%b"
+      fact_ptr_tilde_strict fact_hex2bin_checks_max fact_atoi2_inf_bounded fact_num_clears_errno fact_num_big_as_double fact_strto_clears_errno
   | [] -> ""
   | l -> "?" ^ String.concat " " l
 let () = main_loop handle
